@@ -91,6 +91,46 @@ CHECKS = {
             "Trusted: Ebb3Board's documented SL/QL, ST/QT, EM/QE semantics (vmon/serialsim.py); when both requested "
             "resolutions clamp to 0 the mode is unspecified and not checked.",
             "DESIGN.md section 4 C16"),
+    "C07": ("fault_enumeration",
+            "recording wrappers on the real ebb_serial.command/query (client boundary) + fake-port event log (device "
+            "boundary), offline per-invocation checker against a request-id-tagged Legacy2xBoard simulator; "
+            "systematic request x fault x read-index placement and random delayed/faulty histories",
+            "Per primitive invocation observed (5e4 quick, ~6e6 thorough; commands, OK-terminated and no-OK queries "
+            "in both letter cases, each reply line preceded by 0/1/2..99/100 empty reads, and 101+ empty reads, "
+            "silence, error lines and four exception types at the write and at every read index, also through 12 "
+            "consuming helpers): exactly one write of exactly the request bytes, nothing raised, query() returned str "
+            "- the data line the board generated for that very request or '' - and in conforming histories no reply "
+            "line was left unread and no full-timeout wait followed a complete reply; no port / no text => no I/O.",
+            "Trusted: Legacy2xBoard reply grammar (data line + OK; single line for a,i,mr,pi,qm,qg,v; OK for "
+            "commands); alignment demanded only for conforming (<=100 empty reads per line) exchanges; exceptions "
+            "raised by helpers themselves are observations.",
+            "DESIGN.md section 4 C07"),
+    "C15": ("exploration",
+            "return values of the real min_version (both layers) against integer-tuple order; event-log checker of "
+            "EBB3.connect() on fresh monitored objects against device models (serial.Serial replaced by a factory); "
+            "wire log of gated legacy helpers against the reported version",
+            "Observed (2.3e4 cases quick, ~4.6e6 thorough): every comparison of grid/random multi-digit version "
+            "triples (incl. constructed 9-vs-10 digit-length traps) equalled numeric order in both layers and the "
+            "layers agreed; connect() returned True with no error exactly for EBB device models answering the first "
+            "or second probe with firmware >= the class's minimum, and False with an error for older firmware, "
+            "silent, non-EBB (ASCII, 'EBB' without version, non-ASCII) devices, unopenable ports and exceptions at "
+            "each probe I/O, never raising; rejected devices received only 'v' probes and later requests wrote "
+            "nothing; gated legacy commands reached the wire iff version >= threshold.",
+            "Trusted: device models in vmon/props/C15.py; the supported minimum is read from the class under test "
+            "(a changed minimum is a policy change, not a violation); repeated connect() on an open port is not decided.",
+            "DESIGN.md section 4 C15"),
+    "C19": ("exploration",
+            "port enumerator (module-level comports of both layers) replaced by a stub; every return value of the real "
+            "discovery / listing / naming / lookup functions compared with an oracle written from the statement",
+            "For 2e4 generated port lists quick (~2.4e6 thorough; 0..8 entries mixing macOS/Linux, Windows pyserial-3 and "
+            "pyserial-2.7 EBB descriptors, boards without serial tag, foreign devices incl. one with an EBB-looking SER= "
+            "tag, duplicate / prefix / one-letter names): first-board discovery == two-pass first match, listing == "
+            "in-order filter (None when empty), one reported name per board, each board found by every name form the "
+            "library reports for it (as is, upper, lower, serial tag, port name) unless an earlier port matches a "
+            "documented criterion, no lookup returned a port outside the list or one matching no criterion, layers "
+            "agreed (SNR= lists exempt).",
+            "Trusted: the oracle in vmon/props/C19.py; port entries are 3-tuples like pyserial's ListPortInfo indexing.",
+            "DESIGN.md section 4 C19"),
     "C17": ("exploration",
             "runtime contract on the real max_rate_t3 + exact per-tick rate oracle, workload stratified by "
             "vertex position",
